@@ -518,6 +518,39 @@ func c15Lists(p *Program, r *Report) {
 				second := dollarsIn(g.Info, c.Args[1])
 				if len(first) == 1 && first[0] == 1 && len(second) == 1 && second[0] == last {
 					okApp = true
+					// the list appended to is the value of the rule: when the local can also hold a list made here (the left part
+					// was empty), the action has to make that local its value ($$ = local); appending to a list nobody keeps
+					// drops the statement and everything after it
+					if sel, ok := c.Args[0].(*ast.SelectorExpr); ok {
+						if id, ok := sel.X.(*ast.Ident); ok {
+							obj := g.Info.ObjectOf(id)
+							freshToo, kept := false, false
+							ast.Inspect(cc, func(n2 ast.Node) bool {
+								as, ok := n2.(*ast.AssignStmt)
+								if !ok || len(as.Rhs) != 1 {
+									return true
+								}
+								if l, ok := as.Lhs[0].(*ast.Ident); ok && g.Info.ObjectOf(l) == obj {
+									if u, ok := as.Rhs[0].(*ast.UnaryExpr); ok {
+										if _, isLit := u.X.(*ast.CompositeLit); isLit {
+											freshToo = true
+										}
+									}
+								}
+								if lsel, ok := as.Lhs[0].(*ast.SelectorExpr); ok {
+									if x, ok := lsel.X.(*ast.Ident); ok && x.Name == "yyVAL" {
+										if rid, ok := as.Rhs[0].(*ast.Ident); ok && g.Info.ObjectOf(rid) == obj {
+											kept = true
+										}
+									}
+								}
+								return true
+							})
+							if freshToo && !kept {
+								okApp = false
+							}
+						}
+					}
 				}
 				return true
 			})
@@ -565,9 +598,21 @@ func dollarsOfLocal(info *types.Info, cc *ast.CaseClause, id *ast.Ident) []int {
 	obj := info.ObjectOf(id)
 	var out []int
 	ast.Inspect(cc, func(n ast.Node) bool {
-		if as, ok := n.(*ast.AssignStmt); ok && len(as.Lhs) == 1 && len(as.Rhs) == 1 {
+		// `stmts := $1.(*T)`, the comma-ok form `stmts, ok := $1.(*T)`, and a later `stmts = &T{}` for the case that $1 was nil:
+		// the right-hand-side symbols the local can stand for
+		if as, ok := n.(*ast.AssignStmt); ok && len(as.Lhs) >= 1 && len(as.Rhs) == 1 {
 			if l, ok := as.Lhs[0].(*ast.Ident); ok && info.ObjectOf(l) == obj {
-				out = dollarsIn(info, as.Rhs[0])
+				for _, d := range dollarsIn(info, as.Rhs[0]) {
+					dup := false
+					for _, o := range out {
+						if o == d {
+							dup = true
+						}
+					}
+					if !dup {
+						out = append(out, d)
+					}
+				}
 			}
 		}
 		return true
@@ -705,7 +750,43 @@ func c15Publish(p *Program, r *Report) {
 		r.Undecided("C15.R8", "yyParse", "parser/parser.go", "generated parser not found")
 		return
 	}
+	// publisher helpers: a function of the package that stores one of its parameters into the result field
+	// (`func setResult(yylex yyLexer, stmt ast.Stmt) { if l, ok := yylex.(*Lexer); ok { l.stmt = stmt } }`)
+	publisher := map[*ssa.Function]int{}
+	for _, fn := range SrcFuncs(sp) {
+		if fn == yy || fn.Parent() != nil {
+			continue
+		}
+		for _, b := range fn.Blocks {
+			for _, in := range b.Instrs {
+				st, ok := in.(*ssa.Store)
+				if !ok {
+					continue
+				}
+				fa, ok := st.Addr.(*ssa.FieldAddr)
+				if !ok || fieldOfAddr(fa) != resF {
+					continue
+				}
+				for i, prm := range fn.Params {
+					if st.Val == ssa.Value(prm) {
+						publisher[fn] = i
+					}
+				}
+			}
+		}
+	}
 	isPub := func(in ssa.Instruction) (*types.Var, bool) {
+		if c, isCall := in.(*ssa.Call); isCall {
+			if k, isP := publisher[staticCallee(c)]; isP && staticCallee(c) != nil && k < len(c.Call.Args) {
+				if u, ok := c.Call.Args[k].(*ssa.UnOp); ok {
+					if vfa, ok := u.X.(*ssa.FieldAddr); ok {
+						return fieldOfAddr(vfa), true
+					}
+				}
+				return nil, true
+			}
+			return nil, false
+		}
 		st, ok := in.(*ssa.Store)
 		if !ok {
 			return nil, false
